@@ -264,7 +264,7 @@ def run_selection(run, case, p, R, unit, delta, rel_tol, all_pairs, exact, via):
             check_all_pairs_angle(run, case, pairs, R, d_rad, d_rad * rel_tol)
         else:
             seg_ang = [rm.rot_angle(R[k].T @ R[k + 1]) for k in range(n - 1)]
-            check_consecutive(run, case, pairs, seg_ang, d_rad, 1e-9, "angle consecutive", "consec-angle")
+            check_consecutive(run, case, pairs, seg_ang, d_rad, case.get("band", 1e-9), "angle consecutive", "consec-angle")
     if refused:
         run.hit("refusals (FilterException) observed")
     return pairs
@@ -342,6 +342,13 @@ def k_random(run, case):
         gen.traj_arrays(rng, n, pos_cls=["walk", "circle"][rng.integers(2)], rot_cls=["smooth", "uniform"][rng.integers(2)],
                         stamp_cls="index")
     p, R = arr["p"], arr["R"]
+    if case.get("nano"):
+        # a slowly turning platform sampled at a high rate: a few nano-radians per frame about a
+        # fixed axis (the relative angles are resolved to ~1e-16 rad, the oracle's band is 1e-13)
+        axis = gen.rand_axis(rng)
+        inc = rng.uniform(1e-9, 8e-9, size=n)
+        R = np.array([rm.rodrigues(axis, float(th)) for th in np.cumsum(inc)])
+        case = dict(case, band=1e-13)
     seg = np.linalg.norm(np.diff(p, axis=0), axis=1)
     if unit == "f":
         delta = int(rng.integers(1, n + 2))
@@ -355,6 +362,8 @@ def k_random(run, case):
     rel_tol = [0.0, 0.01, 0.1, 0.5, 1.0, 1.6, 2.5][rng.integers(7)]  # (tolerances above 100 % are legal)
     if case.get("big") and unit in "rd":
         delta, rel_tol = rng.uniform(0.2, 2.5) * (180 / PI if unit == "d" else 1.0), [0.02, 0.1][rng.integers(2)]
+    if case.get("nano"):
+        delta = float(rng.uniform(3, 20) * 4.5e-9) * (180 / PI if unit == "d" else 1.0)
     via = "metrics" if rng.random() < .6 else "filters"
     pairs = run_selection(run, case, p, R, unit, delta, rel_tol, all_pairs, False, via)
     run.seen(case, core.digest(p, R, unit, delta, rel_tol, all_pairs), nontrivial=bool(pairs),
@@ -561,6 +570,8 @@ def main(run):
         k_random(run, run.case("random", i))
     for i in run.mine({"quick": 300, "thorough": 6000}[run.tier]):
         k_reuse(run, run.case("reuse", i))
+    for i in run.mine({"quick": 60, "thorough": 1200}[run.tier]):
+        k_random(run, run.case("random", 3 * 10**6 + i, nano=True, unit="rd"[i % 2], all_pairs=False))
     for i in run.mine({"quick": 300, "thorough": 6000}[run.tier]):
         k_metric_reuse(run, run.case("metric_reuse", i))
     for i in run.mine({"quick": 60, "thorough": 1500}[run.tier]):
